@@ -177,6 +177,12 @@ enum VersionRange {
     WildcardMinor(u64, u64),
     /// Hyphen range: 1.0.0 - 2.0.0 means >=1.0.0 <=2.0.0
     Hyphen { from: Version, to: Version },
+    /// A comparator written with a partial version ("~1", ">1.2"): it matches like `range`; when
+    /// compared with the latest version it starts at the partial version padded with zeros
+    Partial {
+        range: Box<VersionRange>,
+        anchor: Version,
+    },
 }
 
 impl VersionRange {
@@ -186,6 +192,12 @@ impl VersionRange {
 
         // Check for hyphen range first (e.g., "1.0.0 - 2.0.0")
         if let Some(range) = Self::parse_hyphen(spec) {
+            return Some(range);
+        }
+
+        // After an operator a partial version ("~1", "<=1.2") stands for a range of versions,
+        // not for the version padded with zeros
+        if let Some(range) = Self::parse_partial(spec) {
             return Some(range);
         }
 
@@ -210,6 +222,56 @@ impl VersionRange {
         } else {
             parse_version(spec).map(VersionRange::Exact)
         }
+    }
+
+    /// Parse an operator followed by a partial version ("1" or "1.2"). npm reads the partial
+    /// version as the versions that start with these numbers: "~1" is 1.x, "^0" is 0.x, ">1" is
+    /// >=2.0.0 and "<=1.2" is <1.3.0. (A partial version without an operator stays an exact
+    /// version padded with zeros.)
+    fn parse_partial(spec: &str) -> Option<Self> {
+        let (op, rest) = ["<=", ">=", "<", ">", "^", "~"]
+            .iter()
+            .find_map(|op| spec.strip_prefix(op).map(|rest| (*op, rest)))?;
+        let rest = rest.trim();
+        let rest = rest.strip_prefix('v').unwrap_or(rest);
+
+        // "~1.x" is "~1": a wildcard component ends the numbers
+        let mut numbers = rest
+            .split('.')
+            .take_while(|n| !Self::is_wildcard(n))
+            .map(|n| n.parse::<u64>());
+        let major = numbers.next()?.ok()?;
+        let minor = match numbers.next() {
+            Some(minor) => Some(minor.ok()?),
+            None => None,
+        };
+        if numbers.next().is_some() {
+            // A full version
+            return None;
+        }
+
+        // The lowest version that starts with the given numbers: its prereleases count too
+        let floor = |major: u64, minor: u64| Version {
+            pre: semver::Prerelease::new("0").unwrap_or_default(),
+            ..Version::new(major, minor, 0)
+        };
+
+        let range = match (op, minor) {
+            (">=", minor) => VersionRange::Gte(floor(major, minor.unwrap_or(0))),
+            (">", None) => VersionRange::Gte(floor(major.checked_add(1)?, 0)),
+            (">", Some(minor)) => VersionRange::Gte(floor(major, minor.checked_add(1)?)),
+            ("<=", None) => VersionRange::Lt(floor(major.checked_add(1)?, 0)),
+            ("<=", Some(minor)) => VersionRange::Lt(floor(major, minor.checked_add(1)?)),
+            ("<", minor) => VersionRange::Lt(floor(major, minor.unwrap_or(0))),
+            ("^", Some(minor)) if major > 0 => VersionRange::Caret(floor(major, minor)),
+            (_, None) => VersionRange::WildcardMajor(major),
+            (_, Some(minor)) => VersionRange::WildcardMinor(major, minor),
+        };
+
+        Some(VersionRange::Partial {
+            range: Box::new(range),
+            anchor: Version::new(major, minor.unwrap_or(0), 0),
+        })
     }
 
     /// Parse hyphen range like "1.0.0 - 2.0.0"
@@ -292,6 +354,7 @@ impl VersionRange {
             VersionRange::Hyphen { from, to } => {
                 cmp(from) != Ordering::Less && cmp(to) != Ordering::Greater
             }
+            VersionRange::Partial { range, .. } => range.satisfies(version),
         }
     }
 
@@ -310,6 +373,7 @@ impl VersionRange {
             VersionRange::WildcardMajor(major) => Some(Version::new(*major, 0, 0)),
             VersionRange::WildcardMinor(major, minor) => Some(Version::new(*major, *minor, 0)),
             VersionRange::Hyphen { from, .. } => Some(from.clone()),
+            VersionRange::Partial { anchor, .. } => Some(anchor.clone()),
         }
     }
 }
